@@ -155,6 +155,23 @@ func guard(f func()) (hang bool, pan string) {
 	}
 }
 
+// poolStacks: the goroutines currently inside pkg/txpool (header line with the wait state + frames), at most 4000 bytes
+func poolStacks() string {
+	buf := make([]byte, 1<<20)
+	buf = buf[:runtime.Stack(buf, true)]
+	var out []string
+	for _, g := range strings.Split(string(buf), "\n\n") {
+		if strings.Contains(g, "lisk-engine/pkg/txpool.") {
+			out = append(out, g)
+		}
+	}
+	s := strings.Join(out, "\n\n")
+	if len(s) > 4000 {
+		s = s[:4000]
+	}
+	return s
+}
+
 // ---------- records ----------
 
 type listJ struct {
@@ -192,6 +209,8 @@ type stepJ struct {
 	API   bool          `json:"api"`
 	Gone  []int         `json:"gone"`
 	Snap  snapJ         `json:"snap"`
+	Dump  string        `json:"dump,omitempty"` // on hang: the goroutines that were inside pkg/txpool, with their wait state
+	Held  bool          `json:"held,omitempty"` // on hang: the harness itself was holding a pool call at its verifier call
 	Skip  bool          `json:"skip,omitempty"` // overlapped with the following step(s): no snapshot in between
 	Par   int           `json:"par,omitempty"`  // 1 = this Add was parked at its verifier call while the next op was issued
 	tx    *txInfo
@@ -222,6 +241,7 @@ type runner struct {
 	byID      map[string]int
 	byAddr    map[string]int
 	inflight  bool
+	holding   bool // an overlapped Add is parked at its verifier call by the harness
 	reorgDone chan string
 	last      snapJ
 	dead      bool
@@ -390,6 +410,9 @@ func (r *runner) apiCheck(s snapJ, gone []int) (ok, hang bool, pan string) {
 // record closes a step: fresh snapshot (under the watchdog), gone, api; a hang or panic ends the case.
 func (r *runner) record(op []interface{}, t *txInfo, ret int, hang bool, pan string) {
 	st := stepJ{Op: op, Ret: ret, Hang: hang, Panic: pan, Gone: []int{}, Snap: r.last, tx: t}
+	if hang {
+		st.Dump, st.Held = poolStacks(), r.inflight || r.holding
+	}
 	if !hang {
 		var raw *txpool.VerifC14Snapshot
 		h, p := guard(func() { raw = r.pool.VerifC14Snapshot() })
